@@ -74,3 +74,28 @@ pub fn replay(session: &Session, path: &Path) -> i32 {
         }
     }
 }
+
+/// the property objects whose cases are decoded from tapes (used by the fuzz targets)
+pub fn by_id(id: &str) -> Option<&'static dyn crate::engine::Property> {
+    Some(match id {
+        "C01" => &soundness::C01,
+        "C02" => &soundness::C02,
+        "C03" => &c03::C03,
+        "C04" => &refprop::C04,
+        "C05" => &c05::C05,
+        "C06" => &refprop::C06,
+        "C07" => &refprop::C07,
+        "C08" => &c08::C08,
+        "C09" => &c09::C09,
+        "C10" => &c10::C10,
+        "C11" => &refprop::C11,
+        "C12" => &refprop::C12,
+        "C13" => &refprop::C13,
+        "C15" => &c15::C15,
+        "C17" => &c17::C17,
+        "C18" => &c18::C18,
+        "C19" => &c19::C19,
+        "C20" => &c20::C20,
+        _ => return None,
+    })
+}
